@@ -194,6 +194,11 @@ class Repo:
                     cnt = {}
                 for k, v in cnt.items():
                     self.normalised[k] = self.normalised.get(k, 0) + v
+        if self.prepass.get('named_tuples'):
+            # constructor calls that only became plain after unrolling / idiom rewriting
+            _prepass.erase_named_tuples([m.tree for m in mods])
+            for m in mods:
+                _idioms.rewrite_tree(m.tree)
         for m in mods:
             self.modules[m.name] = m
             self._index_module(m)
